@@ -11,6 +11,13 @@
    are validated by TLC against the contract (ds/NearestNeighborsTrace.tla); TLC keeps the bag and
    computes brute force itself.
 
+4. GreedyKCenters (pivot selection of every GNAT split): ds/GreedyKCenters.tla enumerates every
+   multiset of <= N points x k x first centre x tie choice; every terminal state is an admissible
+   answer; the real class is replayed on every case until each first centre was drawn.
+5. M4 audit: the internal structure of the GNATs is dumped after every mutation of random histories
+   and TLC evaluates ds/GnatAudit.tla on it (range tables / radii conservative, removal cache inside
+   the tree and never a pivot, size_ consistent).  Keys "audit:<invariant>:<structure>:<params>".
+
 Violations are keyed "<observation>:<structure>:<params>".  Failures that follow the stale
 removal-cache condition of the GNATs (DESIGN section 5, D5: the cache keeps addresses into a leaf
 vector that reallocates when degree > maxNumPtsPerLeaf) are keyed
@@ -42,6 +49,14 @@ CONFIGS = {
     "lattice9": ("Lattice9", 1, 9),    # 512 bags, L1 ties
 }
 DEEP_COMBOS = [("gnat", "2-2-4-2-2-on"), ("gnat-nts", "3-2-5-1-500-off")]
+GNAT_COMBOS = [c for c in COMBOS if c[0].startswith("gnat")]
+# where splits, pivot removal and cached removals are frequent at small sizes (+ the two plain structures)
+BUSY_COMBOS = [(s, p) for s in ("gnat", "gnat-nts") for p in ("2-2-2-1-1-off", "2-2-4-2-2-on", "3-2-5-1-500-off")] + \
+              [("linear", "-"), ("sqrt", "-")]
+NOT_DEFAULT = [c for c in COMBOS if c[1] != "default"]
+AUDIT_INVARIANTS = ["DumpWellFormed", "RemovedSubsetOfTree", "NoRemovedPivot", "SizeConsistent", "RadiiConservative",
+                    "RangeTablesConservative"]
+KC_INVARIANTS = "TypeOK Distinct TerminalIsAnswer Progress EarlyStopOnlyWhenCovered Separated TwoApproximation"
 # parameter sets with degree > maxNumPtsPerLeaf and a removal cache of at least 2 (see D5)
 CACHE_RELATION = {"4-2-6-2-3-off", "3-2-5-1-500-off", "6-4-8-2-4-on"}
 ACTIONS = {"Add", "AddMany", "Remove", "RemoveAbsent", "Clear"}
@@ -227,15 +242,16 @@ def _replay_job(agg, binary, config, gpath, depth, structure, params, walks, wal
     return time.time() - t0
 
 
-def _record_worker(binary, idx, structure, params, nexec, nops):
-    """Runs in a worker process: record random histories from one structure x parameter set and have
-    TLC validate them against the contract."""
+def _record_one(binary, idx, structure, params, nexec, nops):
+    """Record random histories (with observations) from one structure x parameter set."""
     tpath = os.path.join(WORK, "c10-trace-%s-%s.ndjson" % (structure, params.replace("-", "_") if params != "-" else "x"))
     rc, out, err = run_cmd([binary, "record", tpath, structure, params, str(nexec), str(nops)], timeout=1800,
                            env={"VERIF_SEED": str(vlib.seed() * 131 + idx)})
+    if rc in (-999, -9):
+        raise FrameworkError("nn record timed out / was killed on %s:%s" % (structure, params))
     rec = _parse_lines(out, "RECORDED")
     info = {"structure": structure, "params": params, "trace": tpath, "crashed": rc != 0 or not rec,
-            "stderr": (err or out)[-1500:], "rec": rec[0] if rec else None}
+            "stderr": (err or out)[-1500:], "rec": rec[0] if rec else None, "accepted": None, "prefix": None}
     if info["crashed"]:
         # a sanitizer abort does not flush the trace: keep the complete lines and close the file
         # with the Crash event the recorder could not write (no action of the trace spec matches it)
@@ -249,31 +265,140 @@ def _record_worker(binary, idx, structure, params, nexec, nops):
         if not good or good[-1].get("e") != "Crash":
             good.append({"e": "Crash", "what": "recorder exited with status %s" % rc})
         vlib.write_ndjson(tpath, good)
+    info["events"] = sum(1 for _ in open(tpath))
+    return info
+
+
+def _validate_worker(paths, gname):
+    """Worker process: TLC validates the concatenation of some recorded traces (every trace starts
+    with a Reset line) against the contract.  -> (accepted, matched prefix)"""
+    if len(paths) == 1:
+        tpath = paths[0]
+    else:
+        tpath = os.path.join(WORK, "c10-tracegroup-%s.ndjson" % gname)
+        with open(tpath, "w") as out:
+            for q in paths:
+                with open(q) as f:
+                    shutil.copyfileobj(f, out)
     acc, prefix, res = validate_trace("ds/NearestNeighborsTrace", tpath, timeout=3000, heap="2g")
-    info.update(accepted=acc, prefix=prefix, events=sum(1 for _ in open(tpath)))
+    return acc, prefix
+
+
+def _validate_traces(infos, group):
+    """Validate the recorded traces, several per TLC run; a rejected group is validated again trace by
+    trace so that the rejection is pinned to its structure x parameter set."""
+    groups = [infos[i::max(1, (len(infos) + group - 1) // group)] for i in range(max(1, (len(infos) + group - 1) // group))]
+    with ProcessPoolExecutor(max(1, min(vlib.NCPU, 6))) as exr:
+        futs = [(g, exr.submit(_validate_worker, [i["trace"] for i in g], str(n))) for n, g in enumerate(groups)]
+        again = []
+        for g, f in futs:
+            acc, prefix = f.result()
+            if acc:
+                for i in g:
+                    i["accepted"] = True
+            else:
+                again += g
+        futs = [(i, exr.submit(_validate_worker, [i["trace"]], "x")) for i in again]
+        for i, f in futs:
+            i["accepted"], i["prefix"] = f.result()
+
+
+def _kc_worker(name, pts, maxn, maxk):
+    """Worker process: model-check ds/GreedyKCenters.tla on one configuration and, in the same run,
+    print its terminal states (the admissible answers).  -> (TlcResult, cases path, #answers)"""
+    d = vlib.ensure_dir(os.path.join(WORK, "cfg-c10"))
+    cfg = os.path.join(d, "kc-%s.cfg" % name)
+    with open(cfg, "w") as f:
+        f.write("\n".join(["SPECIFICATION Spec", "CONSTANTS", "  PtSet <- %s" % pts, "  MaxN = %d" % maxn,
+                           "  MaxK = %d" % maxk, "  CheckOpt = TRUE", "INVARIANTS " + KC_INVARIANTS,
+                           "PROPERTY RadiusShrinks", "ACTION_CONSTRAINT Dump"]) + "\n")
+    rows = {}
+
+    def sink(o):
+        rows[json.dumps(o, sort_keys=True)] = o
+    res = run_tlc("ds/GreedyKCenters", cfg=cfg, workers=1, timeout=3000, json_sink=sink, heap="2g")
+    if res.error:
+        raise FrameworkError(res.error)
+    if res.violated:
+        raise FrameworkError("the GreedyKCenters specification is inconsistent: %s violated in %s\n%s"
+                             % (res.violated, name, res.out[-2000:]))
+    path = os.path.join(WORK, "c10-kcenters-%s.ndjson" % name)
+    vlib.write_ndjson(path, list(rows.values()))
+    res.out = ""
+    return res, path, len(rows)
+
+
+def _audit_worker(binary, idx, structure, params, nexec, nops):
+    """Worker process: dump the internals of one GNAT under random histories and let TLC evaluate
+    ds/GnatAudit.tla on every record."""
+    tpath = os.path.join(WORK, "c10-audit-%s-%s.ndjson" % (structure, params.replace("-", "_")))
+    rc, out, err = run_cmd([binary, "audit", tpath, structure, params, str(nexec), str(nops)], timeout=1800,
+                           env={"VERIF_SEED": str(vlib.seed() * 173 + idx)})
+    info = {"structure": structure, "params": params, "trace": tpath, "rec": None, "crashed": False,
+            "stderr": (err or out)[-1500:]}
+    if "AUDIT-UNAVAILABLE" in out:
+        info["unavailable"] = True
+        return info
+    rec = _parse_lines(out, "AUDITED")
+    info["rec"] = rec[0] if rec else None
+    if rc != 0 or not rec:
+        if rc in (-999, -9):
+            raise FrameworkError("nn audit timed out / was killed on %s:%s" % (structure, params))
+        info["crashed"] = True
+        return info
+    acc, prefix, res = validate_trace("ds/GnatAudit", tpath, timeout=3000, heap="2g")
+    info.update(accepted=acc, prefix=prefix, violated=res.violated)
     return info
 
 
 def _plan(tier):
-    """(exhaustive jobs, random-walk jobs, record plan, mc configs, dump configs)"""
+    """The work of a tier.  ex: (graph, depth, alphabet, reinsert, combinations); deep: (graph, depth,
+    shards) on DEEP_COMBOS; rnd: (graph, walks, length) on every combination (ASan build)."""
+    dflt = [c for c in COMBOS if c[1] == "default"]
+    calm = [c for c in COMBOS if c not in BUSY_COMBOS]
     if tier == "quick":
-        ex = [("line4", 6, "noabsent", 0), ("line4", 5, "noabsent", 1), ("line4", 4, "full", 0),
-              ("dup2", 6, "noabsent", 0), ("cluster6", 4, "noabsent", 0), ("lattice9", 4, "noabsent", 0)]
-        rnd = [("line4", 100, 60), ("dup2", 60, 60), ("cluster6", 80, 80), ("lattice9", 60, 60)]
-        rec = (4, 1000)
-        mc = [("line4", True), ("dup2", True)]
-        deep = []
-    else:
-        ex = [("line4", 7, "noabsent", 0), ("line4", 6, "noabsent", 1), ("line4", 5, "full", 0),
-              ("dup2", 7, "noabsent", 0), ("dup2", 5, "full", 1), ("cluster6", 5, "noabsent", 0),
-              ("lattice9", 5, "noabsent", 0)]
-        rnd = [("line4", 600, 80), ("dup2", 400, 80), ("cluster6", 600, 120), ("lattice9", 400, 100)]
-        rec = (24, 1000)
-        mc = [("line4", True), ("dup2", True), ("cluster6", False), ("lattice9", True)]
+        return dict(
+            ex=[("line4", 6, "noabsent", 0, NOT_DEFAULT), ("line4", 5, "noabsent", 0, dflt),
+                ("line4", 5, "noabsent", 1, COMBOS), ("line4", 4, "full", 0, COMBOS),
+                ("dup2", 6, "noabsent", 0, BUSY_COMBOS), ("dup2", 5, "noabsent", 0, calm),
+                ("cluster6", 4, "noabsent", 0, BUSY_COMBOS), ("cluster6", 3, "noabsent", 0, calm),
+                ("lattice9", 4, "noabsent", 0, BUSY_COMBOS), ("lattice9", 3, "noabsent", 0, calm)],
+            deep=[],
+            rnd=[("line4", 50, 60), ("dup2", 30, 60), ("cluster6", 40, 80), ("lattice9", 30, 60)],
+            rec=(4, 700), rec_group=4,
+            mc=[("line4", True), ("dup2", True)],
+            kc=[("line5", "LinePts", 5, 6)],
+            audit=([("gnat", "2-2-4-2-2-on"), ("gnat-nts", "3-2-5-1-500-off"), ("gnat", "6-4-8-2-4-on"),
+                    ("gnat-nts", "default")], 2, 250))
+    return dict(
+        ex=[("line4", 7, "noabsent", 0, COMBOS), ("line4", 6, "noabsent", 1, COMBOS), ("line4", 5, "full", 0, COMBOS),
+            ("dup2", 7, "noabsent", 0, COMBOS), ("dup2", 5, "full", 1, COMBOS), ("cluster6", 5, "noabsent", 0, COMBOS),
+            ("lattice9", 5, "noabsent", 0, COMBOS)],
         # where the tree is busiest (DEEP_COMBOS): depth 8 over the 4-point graph (25.9 million
         # histories per combination, in 16 shards) and depth 6 over the cluster and lattice graphs
-        deep = [("line4", 8, 16), ("cluster6", 6, 6), ("lattice9", 6, 6)]
-    return ex, rnd, rec, mc, deep
+        deep=[("line4", 8, 16), ("cluster6", 6, 6), ("lattice9", 6, 6)],
+        rnd=[("line4", 600, 80), ("dup2", 400, 80), ("cluster6", 600, 120), ("lattice9", 400, 100)],
+        rec=(24, 1000), rec_group=2,
+        mc=[("line4", True), ("dup2", True), ("cluster6", False), ("lattice9", True)],
+        kc=[("line6", "LinePts", 6, 7), ("lattice4", "LatticePts", 4, 5)],
+        audit=(GNAT_COMBOS, 8, 600))
+
+
+def _path_count(gpath, depth, alphabet):
+    """Number of histories of length <= depth in a dumped graph (to start the long jobs first)."""
+    out = {}
+    for e in vlib.read_ndjson(gpath):
+        if alphabet == "full" or e["a"] != "RemoveAbsent":
+            out.setdefault(e["s"], []).append(e["d"])
+    cnt, total = {0: 1}, 0
+    for _ in range(depth):
+        nxt = {}
+        for st, c in cnt.items():
+            for d in out.get(st, ()):
+                nxt[d] = nxt.get(d, 0) + c
+        cnt = nxt
+        total += sum(cnt.values())
+    return total
 
 
 def run(tier):
@@ -282,51 +407,98 @@ def run(tier):
                        "elements compare by identity (uid); an identity is live at most once at a time",
                        "expected answers depend on the bag only; the tree shape depends on the history, hence "
                        "every history up to the depth bound is executed",
-                       "the first pivot of every split is drawn from ompl::RNG (seeded from VERIF_SEED)"]
-    ex_plan, rnd_plan, (nexec, nops), mcs, deep = _plan(tier)
+                       "the first pivot of every split is drawn from ompl::RNG (seeded from VERIF_SEED)",
+                       "kcenters: data non-empty, k >= 1 (as the GNATs call it)"]
+    plan = _plan(tier)
+    nexec, nops = plan["rec"]
     t0 = time.time()
     objs = _util_objects()
-    builders = ThreadPoolExecutor(2)            # compile while TLC works on the model
+    builders = ThreadPoolExecutor(2)            # compile while TLC works on the models
     fast_f = builders.submit(_build_one, None, objs)
     asan_f = builders.submit(_build_one, "asan", objs)
 
-    # 1. the contract's internal consistency; 2. its state graphs with the answer tables
-    graphs = _model(ck, mcs, list(CONFIGS))
-    log("[C10] model checked and graphs dumped at %.1fs" % (time.time() - t0))
+    # 1. consistency of the contract, 2. its state graphs with the answer tables, 4a. the GreedyKCenters model
+    tlc_pool = ProcessPoolExecutor(max(1, min(4, vlib.NCPU)))
+    dump_f = {c: tlc_pool.submit(_dump_worker, c) for c in CONFIGS}
+    kc_f = {k[0]: tlc_pool.submit(_kc_worker, *k) for k in plan["kc"]}
+    mc_f = {c: tlc_pool.submit(_mc_worker, c, subsets) for c, subsets in plan["mc"]}
+    graphs = {}
+    for c, f in dump_f.items():
+        res, gpath, info = f.result()
+        ck.tlc(res, "dump-" + c)
+        ck.set("graph_" + c, info)
+        graphs[c] = gpath
+    log("[C10] graphs dumped at %.1fs" % (time.time() - t0))
 
-    # 3. every history up to the depth bound (plain build) + random walks (ASan build), on all
-    #    structures x parameter sets; 4. recorded random histories validated by TLC
+    # 3. every history up to the depth bound (plain build) + random walks (ASan build)
     agg = Agg()
     pool = ThreadPoolExecutor(vlib.NCPU)
-    futs = []
     fast, probe_fast = fast_f.result()
-    for config, depth, shards in deep:
+    log("[C10] plain build ready at %.1fs" % (time.time() - t0))
+    jobs = []
+    for config, depth, shards in plan["deep"]:
+        n = _path_count(graphs[config], depth, "noabsent") // shards
         for s, p in DEEP_COMBOS:
             for i in range(shards):
-                futs.append(pool.submit(_replay_job, agg, fast, config, graphs[config], depth, s, p, 0, 0, "noabsent", 0,
-                                        vlib.seed(), "%d/%d" % (i, shards)))
-    for config, depth, alphabet, reuse in ex_plan:
-        for s, p in COMBOS:
-            futs.append(pool.submit(_replay_job, agg, fast, config, graphs[config], depth, s, p, 0, 0, alphabet, reuse,
-                                    vlib.seed()))
+                jobs.append((n, (fast, config, graphs[config], depth, s, p, 0, 0, "noabsent", 0, vlib.seed(), "%d/%d" % (i, shards))))
+    for config, depth, alphabet, reuse, combos in plan["ex"]:
+        n = _path_count(graphs[config], depth, alphabet)
+        for s, p in combos:
+            jobs.append((n if s.startswith("gnat") else n // 2,
+                         (fast, config, graphs[config], depth, s, p, 0, 0, alphabet, reuse, vlib.seed())))
+    jobs.sort(key=lambda j: -j[0])
+    futs = [pool.submit(_replay_job, agg, *j[1]) for j in jobs]
+
+    # 5. M4 audit of dumped internals (plain build; the probe is needed)
+    audit_combos, a_exec, a_ops = plan["audit"]
+    aux_pool = ProcessPoolExecutor(max(1, min(vlib.NCPU, 6)))
+    audit_f = [aux_pool.submit(_audit_worker, fast, i, s, p, a_exec, a_ops) for i, (s, p) in enumerate(audit_combos)] \
+        if probe_fast else []
+
+    # 4b. GreedyKCenters replay
+    kc_stats = {}
+    kc_fail = []
+    for name, f in kc_f.items():
+        res, cases, nans = f.result()
+        ck.tlc(res, "kcenters-" + name)
+        rc, out, err = run_cmd([fast, "kcenters", cases], timeout=1800, env={"VERIF_SEED": str(vlib.seed())})
+        summ = _parse_lines(out, "KCSUMMARY")
+        if not summ:
+            if rc in (70, 77, 78) or "CRASH" in out:
+                rp = ck.replay_file("kcenters-crash-%s.txt" % name, (out + err)[-3000:])
+                ck.violation("kcenters:crash", "GreedyKCenters crashed while replaying the specification's cases (%s): %s"
+                             % (name, (err or out)[-500:]), rp)
+                continue
+            raise FrameworkError("nn kcenters produced no summary (rc=%s): %s" % (rc, (out + err)[-2000:]))
+        kc_stats[name] = dict(summ[0], model_answers=nans)
+        for fl in _parse_lines(out, "KCFAIL"):
+            kc_fail.append((name, fl, summ[0]["failures"]))
+    for c, f in mc_f.items():
+        ck.tlc(f.result(), "mc-" + c)
+    tlc_pool.shutdown()
+    log("[C10] models checked, k-centres replayed at %.1fs" % (time.time() - t0))
+
     asan, probe_asan = asan_f.result()
     builders.shutdown()
     have_probe = probe_fast and probe_asan
     ck.set("probe_available", have_probe)
-    log("[C10] builds done at %.1fs" % (time.time() - t0))
-    for config, walks, wl in rnd_plan:
+    log("[C10] ASan build ready at %.1fs" % (time.time() - t0))
+    rec_f = [pool.submit(_record_one, asan, i, s, p, nexec, nops) for i, (s, p) in enumerate(COMBOS)]
+    for config, walks, wl in plan["rnd"]:
         for s, p in COMBOS:
             futs.append(pool.submit(_replay_job, agg, asan, config, graphs[config], 0, s, p, walks, wl, "full", 0, vlib.seed()))
-    results = []
-    with ProcessPoolExecutor(6) as exr:
-        rfuts = [exr.submit(_record_worker, asan, i, s, p, nexec, nops) for i, (s, p) in enumerate(COMBOS)]
-        for f in rfuts:
-            info = f.result()
-            results.append(info)
-            if info["rec"]:
-                with agg.lock:
-                    agg.add_probe(info["structure"], "record:" + info["params"], info["rec"]["probe"])
+
+    # 3b. recorded random histories validated by TLC against the contract
+    results = [f.result() for f in rec_f]
+    for info in results:
+        if info["rec"]:
+            with agg.lock:
+                agg.add_probe(info["structure"], "record:" + info["params"], info["rec"]["probe"])
+    _validate_traces(results, plan["rec_group"])
     log("[C10] traces validated at %.1fs" % (time.time() - t0))
+    audits = [f.result() for f in audit_f]
+    aux_pool.shutdown()
+    log("[C10] audit done at %.1fs" % (time.time() - t0))
     for f in futs:
         f.result()
     pool.shutdown()
@@ -339,10 +511,12 @@ def run(tier):
     ck.set("replayed_steps", agg.steps)
     ck.set("queries_compared", agg.queries)
     ck.set("structures_x_parameter_sets", len(COMBOS))
-    ck.set("exhaustive_plan", [{"graph": c, "depth": d, "alphabet": a, "reinsert_removed": bool(r)} for c, d, a, r in ex_plan]
-           + [{"graph": c, "depth": d, "combinations": ["%s:%s" % sp for sp in DEEP_COMBOS]} for c, d, _ in deep])
+    ck.set("exhaustive_plan", [{"graph": c, "depth": d, "alphabet": a, "reinsert_removed": bool(r), "combinations": len(cs)}
+                               for c, d, a, r, cs in plan["ex"]]
+           + [{"graph": c, "depth": d, "combinations": ["%s:%s" % sp for sp in DEEP_COMBOS]} for c, d, _ in plan["deep"]])
     ck.set("internal_transitions", agg.probe)
     ck.set("internal_transitions_by_params", agg.probe_by_params)
+    ck.set("kcenters", kc_stats)
     ck.set("exhaustive", True)
 
     # ---- verdicts: replay
@@ -368,6 +542,15 @@ def run(tier):
     for key in sorted(agg.fails)[:2]:
         ck.sample({"kind": "shortest failing history", "key": key, "count": agg.fails[key]["count"],
                    "history": agg.fails[key]["first"]["scenario"], "why": agg.fails[key]["first"]["why"]})
+
+    # ---- verdicts: GreedyKCenters
+    for name, fl, nfail in kc_fail:
+        rp = ck.replay_file("kcenters-%s.json" % name, json.dumps(dict(fl, model=name), indent=1))
+        ck.violation("kcenters:" + fl["kind"], "%d calls of GreedyKCenters::kcenters give an answer the specification does "
+                     "not admit; first: data %s (handed over in order %s), k = %d -> centres %s: %s"
+                     % (nfail, fl["data"], fl["order"], fl["k"], fl["centers"], fl["why"]), rp)
+    if kc_stats:
+        ck.sample({"kind": "GreedyKCenters replay", "stats": kc_stats})
 
     # ---- verdicts: traces
     for info in sorted(results, key=lambda r: (r["structure"], r["params"])):
@@ -403,9 +586,47 @@ def run(tier):
             ck.violation("trace:%s:%s" % (bad.get("e"), label), "recorded execution %d of %s rejected by the contract "
                          "at event %d of %d: %s" % (x, label, line, info["events"], json.dumps(bad)[:400]), rp)
 
+    # ---- verdicts: audit of dumped internals
+    audit_stats = {"records": 0, "with_children": 0, "with_cache": 0, "max_nodes": 0, "max_depth": 0, "combinations": 0}
+    for info in sorted(audits, key=lambda r: (r["structure"], r["params"])):
+        label = "%s:%s" % (info["structure"], info["params"])
+        if info.get("unavailable"):
+            continue
+        rp = ck.replay_file("audit-%s.ndjson" % label.replace(":", "_"))
+        if info["crashed"]:
+            if os.path.exists(info["trace"]):
+                shutil.copyfile(info["trace"], rp)
+            ck.violation("audit-crash:" + label, "%s crashed while its internals were dumped under a random history: %s"
+                         % (label, info["stderr"][-600:]), rp)
+            continue
+        r = info["rec"]
+        audit_stats["combinations"] += 1
+        for k2 in ("records", "with_children", "with_cache"):
+            audit_stats[k2] += r[k2]
+        for k2 in ("max_nodes", "max_depth"):
+            audit_stats[k2] = max(audit_stats[k2], r[k2])
+        if r["records"] == 0 or r["with_cache"] == 0 or (info["params"] != "default" and r["with_children"] == 0):
+            raise FrameworkError("vacuity gate: the audit of %s saw no tree with children / no cached removal" % label)
+        if info["accepted"]:
+            ck.add("traces_validated_against_impl", a_exec)
+            ck.add("audited_executions_accepted", a_exec)
+            continue
+        shutil.copyfile(info["trace"], rp)
+        inv = info["violated"] if info["violated"] in AUDIT_INVARIANTS else "rejected"
+        ck.violation("audit:%s:%s" % (inv, label), "internal structure of %s dumped after mutation %d of a random history "
+                     "violates %s (specs/ds/GnatAudit.tla)" % (label, (info["prefix"] or 0) + 1, inv), rp)
+    ck.set("audit", audit_stats)
+    if audit_stats["combinations"]:
+        ck.sample({"kind": "M4 audit of dumped GNAT internals", "stats": audit_stats, "invariants": AUDIT_INVARIANTS})
+
     # ---- vacuity gates
     if agg.queries == 0 or agg.exhaustive == 0:
         raise FrameworkError("vacuity gate: nothing was replayed")
+    for name, st in kc_stats.items():
+        if st["first_centres_seen"] != st["first_centres_needed"] or not st["early_stops"] or not st["cases_with_ties"] \
+                or not st["calls_reusing_matrix"]:
+            raise FrameworkError("vacuity gate: GreedyKCenters replay %s did not cover every first centre / early stop / "
+                                 "tie / matrix re-use: %s" % (name, st))
     if have_probe and not ck.violations:
         need = ["splits", "rebuild_pivot", "rebuild_cache_full", "rebuild_split_with_cache", "rebuild_rebalance",
                 "cached_removals", "degenerate_pivot_sets"]
@@ -418,6 +639,8 @@ def run(tier):
         for p in PARAMS[1:]:
             if not agg.probe_by_params.get(p, {}).get("splits"):
                 raise FrameworkError("vacuity gate: no split under parameter set %s" % p)
+        if not audit_stats["records"]:
+            raise FrameworkError("vacuity gate: no audit record was evaluated")
     return ck.finish()
 
 
